@@ -19,10 +19,10 @@ def _subsets(cands):
 
 
 class EventModel(Model):
-    def __init__(self, n=3):
-        super().__init__(n=n)
+    def __init__(self, n=3, adapter=False):
+        super().__init__(n=n, adapter=adapter)
         self.actors = ["A", "B", "C", "D"][:n]
-        self.objects = {"E": ["event"]}
+        self.objects = {"E": ["event", {"adapter": adapter}]}
         self.watch = ["E"]
 
     def _ops(self):
